@@ -2,7 +2,9 @@
 
 Decided statically: the lock discipline and the pairing of count updates — every liveness-changing engine call and every
 quota-count mutation in an RPC handler happens with the tenant's quota lock held; reservations are released on every
-failure path; decrements use the engine's reported count; the start-up recount completes before the service is exposed.
+failure path and no path leaves between a successful quota check / reservation and the engine call that consumes it; a bulk
+batch reserves for exactly the ids the engine reports absent; decrements use the engine's reported count; the start-up recount
+completes before the service is exposed.
 The arithmetic over histories is not decided.
 """
 import re
@@ -13,7 +15,8 @@ from kvstatic.locks import LockModel
 MANIFEST = {
     'text': 'Decides the structural clauses behind exact quotas: at every call site of a liveness-changing engine operation '
             '(insert, bulk load, delete, batch delete) and of every quota-count mutation in the RPC handlers the per-tenant '
-            'quota lock is held (must-hold dataflow), failed writes give their reservation back on every path, deletes '
+            'quota lock is held (must-hold dataflow), failed writes give their reservation back on every path, no exit lies between a counted '
+            'slot and engine.insert / a reservation and its load, the reserved id set of a bulk batch is built on the engine.exists = false edge, deletes '
             'decrement by what the engine reports, and the start-up recount precedes serving. Necessary conditions; the '
             'arithmetic over histories is not decided.',
     'design_ref': 'DESIGN.md §4.14, §5 F9',
